@@ -546,6 +546,11 @@ def oracle(chk, quick):
     for it in range(60 if quick else 1500):
         ny, nx = rng.randint(1, nmax), rng.randint(1, nmax)
         pad = rng.choice([2, 3, 4] if quick else [2, 3, 4, 5, 6])
+        if it % 4 == 1:
+            # padded lengths n·padding with a prime factor above 11 (13, 17, 19 … pixels across): not a length FFT libraries like, so an
+            # implementation that pads on to the next fast length instead (seeded change C15-J) moves the zero lag there and only there
+            ny = rng.choice([13, 17, 19, 23, 29, 31, ny])
+            nx = rng.choice([13, 17, 19, 23, 29, 31, nx])
         wy, wx = rng.randint(1, ny), rng.randint(1, nx)
         y0, x0 = rng.randint(0, ny - wy), rng.randint(0, nx - wx)
         sy, sx = rng.randint(-y0, ny - wy - y0), rng.randint(-x0, nx - wx - x0)
